@@ -875,6 +875,16 @@ func (c *Ctx) lengthAndWriterAgree() {
 				continue
 			}
 			if f := fieldOf(call.Common().Args[0], ml.Params[0]); f != "" {
+				// where the sums merge decides under which guards the length is part of the result: a merge (phi, or the
+				// set of returns) that the length reaches along some edges only is where it becomes conditional
+				if cv, ok := call.(ssa.Value); ok {
+					if fs, ok := c.inclusionFacts(ml, cv, relevant); ok {
+						if old, seen := counted[f]; !seen || len(fs) > len(old) {
+							counted[f] = fs
+						}
+						continue
+					}
+				}
 				// the guard itself may take len() of the field: the counting site is the one under the most guards
 				fs := relevant(c.presenceFacts(call.Block()))
 				if old, ok := counted[f]; !ok || len(fs) > len(old) {
@@ -964,6 +974,92 @@ func (c *Ctx) lengthAndWriterAgree() {
 	}
 	c.R.Count("fields counted by msglen and written by the encoder", n)
 	c.R.Floor("fields counted by msglen and written by the encoder", n, 5)
+}
+
+// inclusionFacts: the guards under which the value term is part of what fn returns. The values computed from the
+// term (sums, differences, conversions, merges) are followed to the returns; at a merge that only some incoming
+// edges reach with the term, the facts of those edges' blocks are the guards. ok is false when the term does not
+// reach a return or a loop carries the sum (left to the caller's other means).
+func (c *Ctx) inclusionFacts(fn *ssa.Function, term ssa.Value, relevant func([]fact) map[string]bool) (map[string]bool, bool) {
+	inc := map[ssa.Value]bool{term: true}
+	loops := ir.Loops(fn)
+	work := []ssa.Value{term}
+	for len(work) > 0 {
+		v := work[len(work)-1]
+		work = work[:len(work)-1]
+		if v.Referrers() == nil {
+			continue
+		}
+		for _, ref := range *v.Referrers() {
+			var nv ssa.Value
+			switch x := ref.(type) {
+			case *ssa.BinOp:
+				if x.Op == token.ADD || x.Op == token.SUB {
+					nv = x
+				}
+			case *ssa.Convert:
+				nv = x
+			case *ssa.Phi:
+				if ir.InnermostLoop(loops, x.Block()) != nil {
+					return nil, false
+				}
+				nv = x
+			}
+			if nv != nil && !inc[nv] {
+				inc[nv] = true
+				work = append(work, nv)
+			}
+		}
+	}
+	out := map[string]bool{}
+	add := func(b *ssa.BasicBlock) {
+		for k := range relevant(c.presenceFacts(b)) {
+			out[k] = true
+		}
+	}
+	for v := range inc {
+		phi, ok := v.(*ssa.Phi)
+		if !ok {
+			continue
+		}
+		partial := false
+		for _, e := range phi.Edges {
+			if !inc[e] {
+				partial = true
+			}
+		}
+		if !partial {
+			continue
+		}
+		for i, e := range phi.Edges {
+			if inc[e] {
+				add(phi.Block().Preds[i])
+			}
+		}
+	}
+	rets := ir.Returns(fn)
+	reached, partial := false, false
+	for _, ret := range rets {
+		if len(ret.Results) == 0 {
+			return nil, false
+		}
+		if inc[ir.ReturnOperand(ret, 0)] {
+			reached = true
+		} else {
+			partial = true
+		}
+	}
+	if !reached {
+		return nil, false
+	}
+	if partial {
+		for _, ret := range rets {
+			if inc[ir.ReturnOperand(ret, 0)] {
+				add(ret.Block())
+			}
+		}
+	}
+	return out, true
 }
 
 // presenceFacts: the branch facts under which block b runs, leaving out validations - tests whose other
